@@ -374,13 +374,48 @@ def rcancel_receive_is_cancel_safe(ctx):
 
 
 
+
+def r9_taken_callers_are_answered(ctx):
+    """once the read task has taken a caller's reply channel out of the request manager nothing else can complete that
+    call: on every path that follows, the channel is sent on (value or error) before the function returns. A path that just
+    drops it leaves the caller with a closed channel, which the front end takes for `the client is shutting down` and then
+    waits - outside the request timeout - for a disconnect reason that never comes on a healthy connection."""
+    F, R = ctx.F, ctx.R
+    n = 0
+    for pat in (r"^jsonrpsee_core::client::async_client::helpers::process_single_response$", r"^jsonrpsee_core::client::async_client::helpers::process_batch_response$"):
+        b = F.one(pat)
+        R.fn(b)
+        exits = {bi for bi, blk in enumerate(b.blocks) if blk["term"] and blk["term"]["t"] == "return"}
+        sends = b.calls_to(r"oneshot::Sender::<.*>::send$")
+        for l, loc in enumerate(b.locals):
+            if l == 0 or l <= b.argc or not loc["ty"].startswith("tokio::sync::oneshot::Sender<") or not loc.get("user"):
+                continue
+            defs = [(bi, si) for bi, si, dpl, src in b.defs.get(l, []) if not dpl.get("p") and bi in b.reachable and not b.blocks[bi].get("cleanup")]
+            if not defs:
+                continue
+            holders = follow_value(b, l)
+            answered = {c.bb for c in sends if c.args and op_place(c.args[0]) is not None and op_place(c.args[0])["l"] in holders}
+            # handing the channel on (into a struct / another call) also counts as not dropping it here
+            for bi, blk in enumerate(b.blocks):
+                t = blk["term"]
+                if t and t["t"] == "call" and bi not in answered and any(op_place(a) is not None and not op_place(a).get("p") and op_place(a)["l"] in holders and "mv" in a for a in t["args"]):
+                    nm = (op_const(t["f"]) or {}).get("fn", "")
+                    if not re.search(r"^std::mem::drop$|drop_in_place", nm):
+                        answered.add(bi)
+            for bi, si in defs:
+                n += 1
+                ok = bi in answered or flow.all_paths_pass(b, bi, answered, exits)
+                R.check(ok, "C09.R9", "%s:%s-answered" % (short(b.path).split("::")[-1], b.local_name(l) or "_%d" % l), "the reply channel taken out of the manager is answered on every path", "%s can return after taking the caller's reply channel `%s` out of the request manager without sending on it: the call (a subscribe whose answer is not a subscription id, ...) is left with a dropped channel and stays pending beyond the request timeout although the connection is healthy" % (short(b.path), b.local_name(l) or "_%d" % l), "%s:%d" % (b.file, block_line(b, bi)))
+    R.floor("C09.R9", n, 2, "reply channels taken out of the manager in the response path")
+
+
 def rsel_shutdown_is_a_select_branch(ctx):
     """the background tasks notice the other task's end while they wait"""
     from .common import shutdown_is_a_select_branch
     shutdown_is_a_select_branch(ctx, "C09.SEL")
 
 
-RULES = [rsel_shutdown_is_a_select_branch, r1_cause_before_close, r2_no_unchecked_arith_on_peer_numbers, r3_errors_reach_watcher, r4_frontend_mapping, r5_read_error, r6_no_relock, r7_manager_not_cleared_wholesale, r8_no_panicky_text_surgery, rcancel_receive_is_cancel_safe]
+RULES = [rsel_shutdown_is_a_select_branch, r9_taken_callers_are_answered, r1_cause_before_close, r2_no_unchecked_arith_on_peer_numbers, r3_errors_reach_watcher, r4_frontend_mapping, r5_read_error, r6_no_relock, r7_manager_not_cleared_wholesale, r8_no_panicky_text_surgery, rcancel_receive_is_cancel_safe]
 
 LEVEL_TEXT = (
     "Structural necessary conditions of clean failure handling decided from the type-checked program: the happens-before "
